@@ -207,6 +207,11 @@ func (k *Contract) mentions(p string) bool {
 			return true
 		}
 	}
+	for _, cl := range k.Unconditional {
+		if hasProp(cl.Props, p) {
+			return true
+		}
+	}
 	for _, cls := range k.CallAsserts {
 		for _, cl := range cls {
 			if hasProp(cl.Props, p) {
